@@ -337,6 +337,15 @@ def enum_cases(tier):
         out.append(("discriminant 2^N", lit_enum("E", N, "false", [("A", "0", None), ("B", "%d" % full, None)][: 2 if full > 2 else 1] if full > 2 else [("B", "%d" % full, None)]),
                     mk_enum("x", "E", N, [0, full - 1] if full > 2 else [full - 1])))
         out.append(("discriminant 2^N+1", lit_enum("E", N, "false", [("B", "%d" % (full + 1), None)]), mk_enum("x", "E", N, [full - 1])))
+    # pass-through attributes must not switch the count rules off (seeded C10_r13: #[non_exhaustive])
+    for N in (1, 2, 3):
+        full = 1 << N
+        for at in (("#[non_exhaustive]",), ("#[allow(dead_code)]", "#[non_exhaustive]"), ("#[repr(u8)]", "#[non_exhaustive]")):
+            tag = " ".join(at)
+            out.append(("%s: exhaustive=true with 2^N-1 variants" % tag, lit_enum("E", N, "true", seq(full - 1), attrs=at), None))
+            out.append(("%s: exhaustive=false with all 2^N variants" % tag, lit_enum("E", N, "false", seq(full), attrs=at), None))
+            out.append(("%s: exhaustive omitted with all 2^N variants" % tag, lit_enum("E", N, None, seq(full), attrs=at), None))
+            out.append(("%s: discriminant 2^N" % tag, lit_enum("E", N, "false", [("B", "%d" % full, None)], attrs=at), None))
     # the oversized discriminant is not the last variant written / is written with a type suffix under a repr
     for N in (1, 2, 3, 5, 7):
         full = 1 << N
@@ -682,6 +691,14 @@ def build_negative(tier, seed):
         s = struct(mod, "W", base, good, family="TWIN")
         s["twin_of"] = clause
         twin.add(s)
+    # ---- access identifiers written side by side without a comma are not a specifier (seeded C17_r13: the last one won)
+    for i, (arg, ty, imps) in enumerate([("0, r w", "bool", []), ("0, w r", "bool", []), ("4..=7, rw r", "u4", ["u4"]), ("4..=7, r rw", "u4", ["u4"]),
+                                         ("4..=7, w w", "u4", ["u4"]), ("4..=7, r r", "u4", ["u4"]), ("4..=7, rw rw", "u4", ["u4"]),
+                                         ("[0, 2], w rw", "u2", ["u2"]), ("1, rw w", "bool", []), ("1, r, stride = 2 w", "[bool; 2]", [])]):
+        kind = "bit" if ty in ("bool", "[bool; 2]") else "bits"
+        lines = ["/// must-fail: juxtaposed access identifiers", "#[bitfield(u16, default = 0)]", "pub struct W {", "    /// plain", "    #[bits(8..=11, rw)]",
+                 "    plain: u4,", "    /// key", "    #[%s(%s)]" % (kind, arg), "    key: %s," % ty, "}"]
+        neg.add(raw_item("sx%d" % i, "W", lines, "C17", "access: `%s` is not an access specifier" % arg.split(", ", 1)[1], extra={"imports": sorted(set(imps + ["u4"]))}))
     crates += [neg, twin]
     # ---- enum-typed width mismatches are rejected by the type checker (separate crate: later compiler phase)
     negt = Crate("neg_declty_0", kind="neg")
